@@ -769,23 +769,53 @@ theorem structure_implies_accept_ascii (x : Ext) (k : Kind)
   · exact struct_key_accept hs hascii (fun n hn hok => struct_signingKeyVersion_accept hn hok) hst
   · exact struct_key_accept hs hascii (fun n hn hok => struct_base64PublicKey_accept hn hok) hst
 
-/-- For the types without a server-name component, and for server names themselves, acceptance and
-required structure coincide exactly (server names: up to the port finding). -/
+/-- Exact characterisation: with an IPv6 parser that accepts no more than the reference, for user,
+room, alias, room-or-alias and event IDs, server names, device key IDs, MXC URIs, room versions and
+session IDs a string is accepted IF AND ONLY IF it has the required structure and no cut of it has a
+server name with a port above 65535 (the port finding is the only gap between the required structure
+and what the parser accepts). -/
 theorem accept_iff_structure (x : Ext) (hx : ∀ c, x.isIpv6 c = true → ipv6Ref c = true) (k : Kind)
-    (hk : k ∈ [Kind.room, .server, .keyAny, .roomVersion, .sessionId])
+    (hk : k ∈ [Kind.user, .room, .alias, .roomOrAlias, .event, .server, .keyAny, .mxc,
+      .roomVersion, .sessionId])
     (s : Str) (h : utf8Valid s = true) :
     validate x k s = .ok () ↔
       (struct x.isIpv6 k s = true ∧ structBigPort x.isIpv6 k s = false) := by
+  have hs := sep_of_utf8Valid s h
   constructor
   · intro hv
     refine ⟨accept_implies_structure x k s h hv, ?_⟩
     simp only [List.mem_cons, List.not_mem_nil, or_false] at hk
-    rcases hk with rfl | rfl | rfl | rfl | rfl <;> simp only [structBigPort]
-    exact serverOk_not_bigPort ((serverNameValidate_ok_iff (sep_of_utf8Valid s h)).1 hv)
+    rcases hk with rfl | rfl | rfl | rfl | rfl | rfl | rfl | rfl | rfl | rfl <;>
+      simp only [structBigPort] <;> simp only [validate] at hv
+    · obtain ⟨lp, srv, hd, _⟩ := (delimitedValidate_ok_iff hs (by omega) (by omega)).1 hv
+      exact delimOk_not_bigPort hd
+    · obtain ⟨lp, srv, hd, _⟩ := (delimitedValidate_ok_iff hs (by omega) (by omega)).1 hv
+      exact delimOk_not_bigPort hd
+    · unfold roomOrAliasIdValidate at hv
+      split at hv
+      · obtain ⟨lp, srv, hd, _⟩ := (delimitedValidate_ok_iff hs (by omega) (by omega)).1 hv
+        exact delimOk_not_bigPort hd
+      · rename_i hh
+        rw [Bool.eq_false_iff]
+        intro hb
+        obtain ⟨l, t, rfl, _⟩ := delimited_iff.1 hb
+        simp at hh
+      · simp at hv
+    · rcases (eventIdValidate_ok_iff hs).1 hv with ⟨lp, srv, hd⟩ | ⟨hc, _, _⟩
+      · exact delimOk_not_bigPort hd
+      · rw [Bool.eq_false_iff]
+        intro hb
+        obtain ⟨l, t, rfl, _⟩ := delimited_iff.1 hb
+        exact hc (by simp)
+    · exact serverOk_not_bigPort ((serverNameValidate_ok_iff hs).1 hv)
+    · cases hm : mxcValidate x s with
+      | err => simp [hm, Res.void] at hv
+      | panic => simp [hm, Res.void] at hv
+      | ok idx =>
+        obtain ⟨srv, media, hok, _⟩ := (mxcValidate_ok_iff hs).1 hm
+        exact mxcOk_not_bigPort hx hok
   · rintro ⟨hst, hp⟩
-    refine structure_implies_accept x hx k ?_ s h hst hp
-    simp only [List.mem_cons, List.not_mem_nil, or_false] at hk ⊢
-    rcases hk with rfl | rfl | rfl | rfl | rfl <;> simp
+    exact structure_implies_accept x hx k hk s h hst hp
 
 -- the hypotheses are satisfiable: "@a:[::1]:80" has the required structure and no big port
 example : struct ipv6Ref .user (bs "@a:[::1]:80") = true
